@@ -28,9 +28,9 @@ func (l *filterRuleList) addRule(fr *filterRule) {
 }
 
 // exclude.c:check_filter
-func (l *filterRuleList) matches(name string) bool {
+func (l *filterRuleList) matches(name string, isDir bool) bool {
 	for _, fr := range l.Filters {
-		if fr.matches(name) {
+		if fr.matches(name, isDir) {
 			// The first matching rule decides: an include rule means
 			// the entry is not excluded (exclude.c:check_filter).
 			return fr.flag&filtruleInclude == 0
@@ -58,7 +58,7 @@ func ParseFilterRules(rules []string) (*filterRuleList, error) {
 }
 
 // Matches reports whether the rules exclude name.
-func (l *filterRuleList) Matches(name string) bool { return l.matches(name) }
+func (l *filterRuleList) Matches(name string, isDir bool) bool { return l.matches(name, isDir) }
 
 // exclude.c:recv_filter_list
 func RecvFilterList(c *rsyncwire.Conn) (*filterRuleList, error) {
@@ -108,15 +108,23 @@ type filterRule struct {
 }
 
 // exclude.c:rule_matches
-func (fr *filterRule) matches(name string) bool {
+func (fr *filterRule) matches(name string, isDir bool) bool {
 	if fr.flag&filtruleWild != 0 {
 		panic("wildcard filter rules not yet implemented")
 	}
-	if !strings.ContainsRune(fr.pattern, '/') &&
-		fr.flag&filtruleWild == 0 {
-		name = filepath.Base(name)
+	if fr.flag&filtruleDirectory != 0 && !isDir {
+		// a trailing slash restricts the rule to directories
+		return false
 	}
-	return fr.pattern == name
+	if !strings.ContainsRune(fr.pattern, '/') {
+		return fr.pattern == filepath.Base(name)
+	}
+	if strings.HasPrefix(fr.pattern, "/") {
+		// a leading slash anchors the rule at the root of the transfer
+		return strings.TrimPrefix(fr.pattern, "/") == name
+	}
+	// otherwise, the rule matches the tail of the path, on a component boundary
+	return name == fr.pattern || strings.HasSuffix(name, "/"+fr.pattern)
 }
 
 // exclude.c:parse_filter_str / exclude.c:parse_rule_tok
